@@ -15,7 +15,19 @@ type verifShape struct {
 	traces [4]int // traces per result, by depth
 	subs   [4]int // sub-results per trace, by depth
 	loc    [4]bool
-	lit    int // which of the trace value's actual / expected are typed literals taken from the data: bit 0 actual, bit 1 expected
+	lit    int // which of the trace value's actual / expected are typed literals taken from the data: bit 0 actual, bit 1 expected; 4 = actual is a quoted data node
+}
+
+// verifQuotedNode: a node of the data graph quoted as the actual value of a trace (what an inverse
+// path step hands to datatype / pattern / comparison constraints): typed, with its own @id and two
+// properties that each hold an array of typed literals.
+func verifQuotedNode() any {
+	lit := func(s string) any {
+		return types.ObjectMap{"@type": "http://www.w3.org/2001/XMLSchema#int", "@value": s}
+	}
+	return types.ObjectMap{"@id": "http://x/household", "@type": []any{"http://example.org/Household"},
+		"http://example.org/a": []any{lit("1"), lit("2")}, "http://example.org/b": []any{lit("3"), lit("4")},
+		"http://example.org/c": types.ObjectMap{"@id": "http://x/other"}}
 }
 
 func verifLiteral(typed bool, val string) any {
@@ -38,6 +50,9 @@ func verifResultTree(sh *verifShape, depth int, name string) types.ObjectMap {
 	for t := 0; t < sh.traces[depth]; t++ {
 		tv := types.ObjectMap{"@type": []any{"reportSchema:TraceValueNode", "validation:TraceValue"}, "negated": false,
 			"actual": verifLiteral(sh.lit&1 != 0, "2020-01-01"), "expected": verifLiteral(sh.lit&2 != 0, "2021-01-01")}
+		if sh.lit == 4 {
+			tv["actual"] = verifQuotedNode()
+		}
 		if depth > 0 && sh.subs[depth] > 0 {
 			var subs []any
 			for s := 0; s < sh.subs[depth]; s++ {
@@ -88,7 +103,7 @@ func verifCollectIds(x any, ids *[]string) {
 // that is unique in the document; one dialect instance encodes one report node.
 func VerifC12Ids() {
 	depth := 1 + v.Choice("depth", 3)
-	sh := &verifShape{lit: v.Choice("literals", 4)}
+	sh := &verifShape{lit: v.Choice("literals", 5)}
 	traces, subs, loc := 1+v.Choice("traces", 2), v.Choice("subs", 3), v.Choice("loc", 2) == 1
 	for d := 0; d <= depth; d++ {
 		sh.traces[d] = traces
